@@ -110,6 +110,25 @@ func TestVerifC13(t *testing.T) {
 				} else if err == nil {
 					r.Violation(fmt.Sprintf("za-accepts-too-long-id:len%%8192=%d,content=%d", l%8192, variant), hk.D{"idlen": l, "content_variant": variant, "za": hk.Hex(got)})
 				}
+				// a too-long id must not be verifiable under ANY stand-in digest: signatures that are valid for the digests a
+				// careless implementation could fall back to (no ZA at all, ZA of the empty id, ZA of the id cut to
+				// 8191 bytes or to its length mod 8192) must all be rejected
+				if variant == 0 && i%3 == 0 {
+					zaEmpty, _ := ref.SM2ZA(nil, px0, py0)
+					zaCut, _ := ref.SM2ZA(id[:8191], px0, py0)
+					zaMod, _ := ref.SM2ZA(id[:l%8192], px0, py0)
+					msg := []byte("message under a too-long id")
+					for di, dg := range [][]byte{ref.SM3(msg), ref.SM2E(zaEmpty, msg), ref.SM2E(zaCut, msg), ref.SM2E(zaMod, msg), ref.SM2E(nil, msg), ref.SM2E(make([]byte, 32), msg)} {
+						m := ref.SM2Sign(d0, dg, idbuf[300:300+96])
+						if m.R == nil {
+							continue
+						}
+						ok, _ := Verify(id, px0, py0, msg, ref.B32(m.R), ref.B32(m.S))
+						if ok {
+							r.Violation("verify-accepts-signature-under-too-long-id", hk.D{"idlen": l, "signature_is_valid_for": []string{"SM3(M)", "ZA(empty id)", "ZA(id[:8191])", "ZA(id[:len mod 8192])", "SM3(M) again", "ZA = 32 zero bytes"}[di]})
+						}
+					}
+				}
 				// and through the id-level entry points
 				if variant < 2 && i%4 == 0 {
 					_, _, serr := Sign(id, px0, py0, newScript(idbuf[:256]), ref.B32(d0), []byte("m"))
